@@ -80,6 +80,9 @@ type vfGen struct {
 	payload bool
 	// encap: the extended payload of next-hops is drawn from the encapsulation-header shapes instead
 	encap bool
+	// weights: group members carry an optional symbolic weight (any 64-bit value, 0 included); duplicate member
+	// indices are excluded then (duplicates with different weights are order-dependent in the real pipeline)
+	weights bool
 	// lean: symbolic steps on top-level entries always carry a body and a group reference and nothing else
 	// optional (the optional fields are explored by the other harnesses); pre-state slots are always live
 	lean bool
@@ -185,6 +188,19 @@ func (g *vfGen) topx(name string, kind int, validOnly bool) *vfPayloadX {
 	return x
 }
 
+// weigh gives member m an optional symbolic weight (when g.weights) and keeps member indices distinct.
+func (g *vfGen) weigh(name string, m *vfMember, prev []vfMember) {
+	if !g.weights {
+		return
+	}
+	for _, p := range prev {
+		vfAssume(p.idx != m.idx)
+	}
+	if vfBool(name + ".m.hasW") {
+		m.hasW, m.w = true, vfU64(name+".m.w")
+	}
+}
+
 func (g *vfGen) id() uint64 { g.nextID++; return g.nextID }
 
 func (g *vfGen) lowNI(name string) string {
@@ -231,6 +247,7 @@ func (g *vfGen) nhg(name string, maxMembers int) *vfOpD {
 	n := vfInt(name+".nm", lo, maxMembers)
 	for i := 0; i < n; i++ {
 		m := vfMember{idx: vfU64(name + ".m.idx")}
+		g.weigh(name, &m, d.members)
 		d.members = append(d.members, m)
 	}
 	if g.rich && vfBool(name+".hasBackup") {
@@ -319,7 +336,9 @@ func (g *vfGen) anyOf(name string, maxMembers, typLo, typHi int, kinds []int) *v
 	case vfKNHG:
 		n := vfInt(name+".nm", 0, maxMembers)
 		for i := 0; i < n; i++ {
-			d.members = append(d.members, vfMember{idx: vfU64(name + ".m.idx")})
+			m := vfMember{idx: vfU64(name + ".m.idx")}
+			g.weigh(name, &m, d.members)
+			d.members = append(d.members, m)
 		}
 		if vfBool(name + ".hasBackup") {
 			d.hasBackup, d.backup = true, vfU64(name+".backup")
@@ -419,6 +438,7 @@ type vfRunCfg struct {
 	payload  bool // extended payload (see vfGen.payload)
 	lean     bool // see vfGen.lean
 	encap    bool // see vfGen.encap
+	weights  bool // see vfGen.weights
 }
 
 // vfRIBRun: canonical pre-state + symbolic steps, each answer checked against
@@ -429,7 +449,7 @@ func vfRIBRun(c vfRunCfg) {
 		fwd = vfBool("forward-references")
 	}
 	r, ref := vfNewPair(fwd)
-	g := &vfGen{rich: c.rich, fixLow: c.fixLow, splitLow: c.splitLow, enums: c.enums, payload: c.payload, lean: c.lean, encap: c.encap}
+	g := &vfGen{rich: c.rich, fixLow: c.fixLow, splitLow: c.splitLow, enums: c.enums, payload: c.payload, lean: c.lean, encap: c.encap, weights: c.weights}
 	pre := c.pre
 	if !fwd {
 		pre.nHeld = 0
